@@ -227,8 +227,13 @@ def split_boxes(gd, nx, ny):
     return [(cx[i], cx[i + 1], cy[j], cy[j + 1]) for i in range(len(cx) - 1) for j in range(len(cy) - 1)]
 
 
-def split_z(gd, nz):
+def split_z(gd, nz, zone='all'):
+    """zone 'surface': only from two layers below the lowest column surface upwards
+    (deep layers all behave alike; keeps geometries with dozens of layers affordable)."""
     z0, z1 = gd.outer_z()
+    if zone == 'surface':
+        below = [b for b in gd.lbot if b < min(gd.surf)]
+        if len(below) > 2: z0 = below[2]
     inner = [v for v in gd.zlevels if z0 < v < z1]
     cs = []
     for j in range(1, nz):
@@ -546,7 +551,7 @@ def plan(tier):
              compare=None, block=(1, [True])),
         dict(geo='g2sub', ncols=12, nx=4, ny=4,
              variants=['plain', 'qtree', 'bnodes', 'guess0', 'guess6', 'cols:even'],
-             compare=None, block=(3, [False])),
+             compare=None, block=(3, [False], 'surface')),
         dict(geo='g5sub', ncols=12, nx=4, ny=4,
              variants=['plain', 'qtree', 'bnodes', 'guess7'],
              compare=None, block=None),
@@ -580,8 +585,9 @@ def run(tier, seed, rep):
             if p.get('compare'):
                 tasks.append((task_compare, dict(geo=p['geo'], ncols=p['ncols'], variants=p['compare'], box=box, boxid=bi)))
             if p.get('block'):
-                nz, qts = p['block']
-                for zi, zbox in enumerate(split_z(gd, nz)):
+                nz, qts = p['block'][:2]
+                zone = p['block'][2] if len(p['block']) > 2 else 'all'
+                for zi, zbox in enumerate(split_z(gd, nz, zone)):
                     for uq in qts:
                         tasks.append((task_block, dict(geo=p['geo'], ncols=p['ncols'], use_qtree=uq, box=box, zbox=zbox, boxid='%d.%d' % (bi, zi))))
     if tier == 'thorough' and (not only or 'track' in only.split(',')):
@@ -618,7 +624,7 @@ def run(tier, seed, rep):
     rep.bounds += ['geometries are CONCRETE: ' + '; '.join(geos),
                    'point (x, y): any real point of the geometry\'s bounding box enlarged by 10 %% on each side (cut into sub-boxes that together cover it), '
                    'farther than tau = 1e-6 * (larger side of the bounding box) from every column edge LINE',
-                   'elevation z: any real in [lowest layer bottom - 10 %, max(top, highest surface) + 10 %], farther than tau_z = 1e-6 * height from every layer boundary and every column surface',
+                   'elevation z: any real in [lowest layer bottom - 10 % (g2sub: from the third layer bottom below the lowest surface), max(top, highest surface) + 10 %], farther than tau_z = 1e-6 * height from every layer boundary and every column surface',
                    '%d aid configurations in total: none / quadtree / bounding rectangle / boundary polygon / guess (quick: 3 per geometry; thorough: EVERY column of rect33, rot37, mix5 as guess) / '
                    'column subsets / combinations' % nconf]
     rep.outside += ['symbolic geometries (node positions are concrete numbers; only the point is symbolic)',
